@@ -142,6 +142,10 @@ func cleanupPods(client client.Client, logger logr.Logger, status *datadoghqv1al
 	if len(pods) != 0 {
 		// write the condition even when it is false and does not exist yet: a failed clean-up must be visible
 		conditions.UpdateExtendedDaemonSetReplicaSetStatusCondition(status, now, datadoghqv1alpha1.ConditionTypePodsCleanupDone, conditionStatus, "", "", true, false)
+	} else if conditions.GetIndexForConditionType(status, datadoghqv1alpha1.ConditionTypePodsCleanupDone) >= 0 {
+		// nothing is left to clean up: a clean-up recorded as failed earlier (e.g. a deletion that went through
+		// although its answer was lost) is over, the condition must not say otherwise for ever
+		conditions.UpdateExtendedDaemonSetReplicaSetStatusCondition(status, now, datadoghqv1alpha1.ConditionTypePodsCleanupDone, corev1.ConditionTrue, "", "", false, false)
 	}
 
 	return utilserrors.NewAggregate(errs)
